@@ -152,6 +152,16 @@ ALL_OPERATIONS = {pid for pid, over in _quantifiers().items()
 ALL_OPERATIONS.add('C09')
 
 
+# C19 is about the C wrappers: of the pure-Python package only the shared
+# helper modules are on their paths (the managers dd.bdd / dd.autoref /
+# dd.mdd are what the wrappers stand in for), plus the one function whose
+# operator table is the reference for theirs
+MODULE_FILTER = {
+    'C19': (('dd._copy', 'dd._utils', 'dd._parser', 'dd._abc'),
+            ('dd.bdd.BDD.apply',)),
+}
+
+
 def has(P, pid, *quals):
     """Is one of the functions in the scope of the property?"""
     if pid not in ENTRY:
@@ -219,5 +229,10 @@ def functions_of(P, pid):
         for e in G.out.get(q, []):
             if e.callee and e.callee not in seen:
                 todo.append(e.callee)
+    if pid in MODULE_FILTER:
+        mods, also = MODULE_FILTER[pid]
+        seen = {q for q in seen
+                if any(q.startswith(m + '.') for m in mods)} | {
+                    q for q in also if P.func(q, required=False)}
     cache[pid] = seen
     return seen
